@@ -1115,9 +1115,12 @@ def curve_deriv_cpts(dim, degree, kv, cpts, rs, deriv_order=0):
     for k in range(1, deriv_order + 1):
         tmp = degree - k + 1
         for i in range(0, r - k + 1):
-            PK[k][i][:] = [tmp * (elem1 - elem2) /
-                           (kv[rs[0] + i + degree + 1] - kv[rs[0] + i + k]) for elem1, elem2
-                           in zip(PK[k - 1][i + 1], PK[k - 1][i])]
+            denom = kv[rs[0] + i + degree + 1] - kv[rs[0] + i + k]
+            if denom == 0.0:
+                # The basis function which multiplies this control point has an empty support (repeated knots)
+                PK[k][i][:] = [0.0 for _ in range(dim)]
+                continue
+            PK[k][i][:] = [tmp * (elem1 - elem2) / denom for elem1, elem2 in zip(PK[k - 1][i + 1], PK[k - 1][i])]
 
     # Return control points (as a 2-dimensional list of points)
     return PK
